@@ -151,6 +151,55 @@ func (d *ValGrid) Cases(tier string) []GridCase {
 		n := rep("a", 63) + "." + rep("b", 63) + "." + rep("c", 63) + "."
 		add("name", n+rep("d", tot-len(n)-4)+".com")
 	}
+	// the outer neighbours of the accepted byte ranges ('0'-1, '9'+1, 'a'-1, 'z'+1, 'A'-1, 'Z'+1) and bytes with the top
+	// bit set, substituted at the first, an inner and the last position of a label and of the TLD
+	for _, b := range []byte{0x00, 0x2f, 0x3a, 0x40, 0x5b, 0x60, 0x7b, 0x7f, 0x80, 0xff, '*', '@'} {
+		for _, tmpl := range []string{"abc.com", "a-b.com", "x.abc", "ab.cd.com"} {
+			for pos := 0; pos < len(tmpl); pos++ {
+				if tmpl[pos] == '.' {
+					continue
+				}
+				bs := []byte(tmpl)
+				bs[pos] = b
+				add("name", string(bs))
+			}
+		}
+	}
+	// every short string over the alphabet enlarged by those bytes
+	{
+		big := append([]string{}, alpha...)
+		for _, b := range []byte{0x00, 0x2f, 0x3a, 0x40, 0x5b, 0x60, 0x7b, 0x80, 0xff} {
+			big = append(big, string([]byte{b}))
+		}
+		var gen2 func(prefix string, l int)
+		gen2 = func(prefix string, l int) {
+			if len(prefix) > 0 {
+				add("name", prefix)
+				add("name", prefix+".com")
+			}
+			if l == 0 {
+				return
+			}
+			for _, c := range big {
+				gen2(prefix+c, l-1)
+			}
+		}
+		gen2("", 3)
+	}
+	// the registration entry points see second-level names only: every enumerated string once more under .com
+	var genCom func(prefix string, l int)
+	genCom = func(prefix string, l int) {
+		if len(prefix) > 0 {
+			add("name", prefix+".com")
+		}
+		if l == 0 {
+			return
+		}
+		for _, c := range alpha {
+			genCom(prefix+c, l-1)
+		}
+	}
+	genCom("", maxLen-1)
 	add("name", "a..com")
 	add("name", ".com")
 	add("name", "com.")
@@ -193,6 +242,23 @@ func (d *ValGrid) Cases(tier string) []GridCase {
 	}
 	for _, s := range []string{"::", "::1", "2a00::", "2a00:1450:4001:81b::200e", "2a00:1450:4001:81b:0:0:0:200e", "2a00:1450:4001:081b::200e", ":2a00::1", "2a00::1:", "2a00", "2a00:1", "1:2:3:4:5:6:7:8", "2a00:2:3:4:5:6:7:8", "2a00:2:3:4:5:6:7:8:9", "2a00:2:3:4:5:6:7::", "2a00::2:3:4:5:6:7", "2a00:::1", "::2a00:1", "2a00::1::", "2a00:0000:0000:0000:0000:0000:0000:0001", "2a00:0000:0000:0000:0000:0000:0000:00001", " 2a00::1", "2a00::1 ", "[2a00::1]", "2a00::1/64"} {
 		add("AAAA", s)
+	}
+	// every placement of '::' : k explicit groups (1..8), the gap in every position 0..k, also with a leading or a
+	// trailing group of zeros next to it
+	for k := 1; k <= 8; k++ {
+		groups := []string{"2a00"}
+		for i := 1; i < k; i++ {
+			groups = append(groups, fmt.Sprintf("%x", i))
+		}
+		for gap := 0; gap <= k; gap++ {
+			left, right := strings.Join(groups[:gap], ":"), strings.Join(groups[gap:], ":")
+			add("AAAA", left+"::"+right)
+			if gap > 0 && gap < k {
+				add("AAAA", left+":0::"+right)
+				add("AAAA", left+"::0:"+right)
+			}
+		}
+		add("AAAA", strings.Join(groups, ":"))
 	}
 	// ---- TXT ----
 	for _, l := range []int{0, 1, 2, 254, 255, 256, 257, 300} {
